@@ -8,7 +8,7 @@ def main():
     c.correspond("classify")
     c.correspond("disphonest")
     return c.finish(
-        rule="rbcfair: N in 2..5 real receivers, all honest, workloads with several concurrent senders, up to two consecutive rounds and point-to-point messages; every message delivered exactly once in an order "
+        rule="disphonest: fault-free dispatcher-level sessions over the real acknowledgement / payload encodings with corner identifiers, every message delivered in random order: every broadcast handed over exactly once at every other participant, every point-to-point message exactly once at its addressee, at quiescence. rbcfair: N in 2..5 real receivers, all honest, workloads with several concurrent senders, up to two consecutive rounds and point-to-point messages; every message delivered exactly once in an order "
              "drawn by the PRNG under one of six biases (uniform, acknowledgements first, acknowledgements last, one party starved, LIFO, later round first); plus EVERY delivery order of N=3/one sender and "
              "N=2/two senders/two rounds (re-executed from scratch per order). Each delivery is one operation line diffed against the model; at quiescence the direct monitor counts hand-overs per "
              "(party, sender, round, payload) and probes every party for a false equivocation verdict. classify: real ClassifyMsg of mpc/bls and mpc/ps on every first byte. "
